@@ -546,6 +546,19 @@ def check_sources(case, ctx):
         if status == "ok":
             for k, r in enumerate(val.consensus_rankings):
                 check_ranking_views(r, "%s consensus ranking %d" % (case["cfg"], k))
+            # ... and still after the consensus has been read through its other accessors
+            with lib.quiet():
+                for kk in (1, 2, 3, len(d.universe)):
+                    top = lib.must(val.topk_ranking, kk)
+                    lib.must(val.evaluate_topk_ranking, list(top)[:1], kk)
+                lib.must(val.description)
+                _ = val.kemeny_score
+            for k, r in enumerate(val.consensus_rankings):
+                check_ranking_views(r, "%s consensus ranking %d after top-k / description / score reads" % (
+                    case["cfg"], k))
+            got = check_dataset_views(d, "the dataset after %s and reads of its consensus" % case["cfg"])
+            same_rankings(got, lib.normalized(case["dataset"]["rankings"]) if "dataset" in case else got,
+                          "the dataset after %s and reads of its consensus" % case["cfg"])
 
 
 def subchecks():
